@@ -7,6 +7,7 @@ mod cmd_binary;
 mod cmd_jax;
 mod cmd_lookup;
 mod cmd_record;
+mod cmd_compare;
 #[cfg(hpo_verif)]
 mod cmd_algo;
 mod enc;
@@ -33,6 +34,7 @@ fn main() {
         "replay-jax" => cmd_jax::run(&args),
         "replay-lookup" => cmd_lookup::run(&args),
         "record" => cmd_record::run(&args),
+        "replay-compare" => cmd_compare::run(&args),
         #[cfg(hpo_verif)]
         "record-algo" => cmd_algo::run(&args),
         "debug-mismatch" => cmd_binary::debug_mismatch(&args),
